@@ -242,14 +242,35 @@ Print Assumptions C09_lazy_compare_keywise.
    must grow -> it is dense and the dense theorems (C09_broadcast_left) apply *)
 Theorem C09_lazy_broadcast_member : forall (bs s : shape) sd,
   List.length s <> 0 -> bcast_all [bs; s] = Some bs ->
-  lazy_maybe_broadcast true bs sd [KTensor s] = LMember bs (maybe_broadcast (remove_at sd bs) [KTensor (remove_at sd bs)]).
+  forall hetero, lazy_maybe_broadcast true hetero bs sd [KTensor s]
+                 = LMember bs sd (maybe_broadcast (remove_at sd bs) [KTensor (remove_at sd bs)]).
 Proof. exact lazy_broadcast_member. Qed.
 Print Assumptions C09_lazy_broadcast_member.
 Theorem C09_lazy_broadcast_dense : forall (bs s B : shape) sd,
   List.length s <> 0 -> bcast_all [bs; s] = Some B -> shape_eqb B bs = false ->
-  lazy_maybe_broadcast true bs sd [KTensor s] = LDense (BPerLeaf B).
+  lazy_maybe_broadcast true false bs sd [KTensor s] = LDense (BPerLeaf B) /\
+  lazy_maybe_broadcast true true bs sd [KTensor s]
+  = LMember B (expand_stack_dim bs sd B)
+            (maybe_broadcast (remove_at (expand_stack_dim bs sd B) B) [KTensor (remove_at (expand_stack_dim bs sd B) B)]).
 Proof. exact lazy_broadcast_dense. Qed.
 Print Assumptions C09_lazy_broadcast_dense.
+(* an operand of HIGHER rank than the stack (any rank): the stack is expanded on the left, its stack dim moves to
+   stack_dim + (rank B - rank bs), and member i of the expanded stack is member i expanded: the dense stack expanded to B,
+   read at (jb with i inserted at the shifted dim), is member i's expansion read at jb.  Together with
+   C09_lazy_member_view (stated for ANY operand rank <= rank B and any stack dim of B) this is
+   "(lazy op tensor) materialised = (dense op tensor)" for operand ranks below, equal to and above the stack's rank *)
+Theorem C09_lazy_expand_member : forall (bs B : shape) sd i jb,
+  sd < List.length bs -> List.length bs <= List.length B -> S (List.length jb) = List.length B ->
+  bidx bs (insert_at (expand_stack_dim bs sd B) i jb)
+  = insert_at sd (if Nat.eqb (nth sd bs 0) 1 then 0 else i) (bidx (remove_at sd bs) jb).
+Proof. exact expand_member_commutes. Qed.
+Print Assumptions C09_lazy_expand_member.
+(* unbinding along the ORIGINAL stack dim after the expansion (seeded change C09-3) reads another member's slice *)
+Theorem C09_lazy_expand_original_dim_refuted :
+  exists (bs B : shape) sd i jb, sd < List.length bs /\ S (List.length jb) = List.length B /\
+    nth sd (bidx bs (insert_at sd i jb)) 0 <> i.
+Proof. exact expand_member_original_dim_refuted. Qed.
+Print Assumptions C09_lazy_expand_original_dim_refuted.
 (* element level, every stack dim, every member: position (jb ++ jf) of member i's leaf reads the operand where the
    dense stack's leaf reads it at (jb with i inserted at the stack dim) ++ jf *)
 Theorem C09_lazy_member_view : forall (s B feat : shape) sd i,
@@ -334,10 +355,12 @@ Example C09_ex_lazy :
   lazy_binary_plan true true Foreach [[("x", 1%Z)]; [("x", 2%Z)]] (LOpLazy [[("x", 10%Z); ("c", 30%Z)]; [("x", 20%Z); ("c", 40%Z)]]) (DVal 0%Z)
   = Ok (LzMembers [[("x", (1%Z, RLeaf 10%Z)); ("c", (0%Z, RLeaf 30%Z))]; [("x", (2%Z, RLeaf 20%Z)); ("c", (0%Z, RLeaf 40%Z))]]) /\
   bcast_all [[2; 3]; [3]] = Some [2; 3] /\
-  lazy_maybe_broadcast true [2; 3] 1 [KTensor [3]] = LMember [2; 3] (BPerLeaf [2]) /\
-  lazy_maybe_broadcast true [3] 0 [KTensor [3]] = LMember [3] BDirect /\
-  lazy_maybe_broadcast true [2; 3] 0 [KTensor [3]] = LMember [2; 3] (BPerLeaf [3]) /\
-  lazy_maybe_broadcast true [3] 0 [KTensor [2; 3]] = LDense (BPerLeaf [2; 3]) /\
+  lazy_maybe_broadcast true false [2; 3] 1 [KTensor [3]] = LMember [2; 3] 1 (BPerLeaf [2]) /\
+  lazy_maybe_broadcast true false [3] 0 [KTensor [3]] = LMember [3] 0 BDirect /\
+  lazy_maybe_broadcast true false [2; 3] 0 [KTensor [3]] = LMember [2; 3] 0 (BPerLeaf [3]) /\
+  lazy_maybe_broadcast true false [3] 0 [KTensor [2; 3]] = LDense (BPerLeaf [2; 3]) /\
+  lazy_maybe_broadcast true true [3; 2] 0 [KTensor [3; 3; 2]] = LMember [3; 3; 2] 1 (BPerLeaf [3; 2]) /\
+  bidx [3; 2] (insert_at (expand_stack_dim [3; 2] 0 [3; 3; 2]) 2 [1; 0]) = [2; 0] /\
   match member_operand_view [3] [2; 3] 1 2 [4] with
   | Ok u => vshape u = [2; 4] /\ vidx u [1; 3] = [2]
   | Raised => False
